@@ -531,7 +531,23 @@ class C15(World):
                 calls.append({"version": v, "prettyprint": bool(ch.pick("op.pretty", 2)),
                               "close_elements": True if v >= 200 else not ch.pick("op.unclosed", 2)})
             sim.spawn(f"T{t}", body(slot, client, calls))
+        if ch.flag("conc.crash", 0.15):
+            # the whole process is killed somewhere in the middle of the concurrent phase
+            self.crash_plan = {"at": ch.pick("conc.crash.at", 12), "torn": ch.flag("conc.crash.torn", 0.3)}
+            self.crash_seen = 0
+            self.crashed = None
         sim.run_tasks()
+        self.crash_plan = None
+        if self.crashed:
+            for op in self.ops:
+                if op.t_return is None:
+                    op.ok = None
+                    op.exc = "killed"
+                    op.t_return = sim.evno
+            self.restart_process(self.crashed)
+            self.crashed = None
+            st = self.probe_all("after restart", charge=False)
+            self.check_states(st, "after-real-crash", "after the process was killed in the concurrent phase")
         if sim.switches > k:
             self.nontrivial = True
         self.probe_all("after concurrent phase", charge=False)
